@@ -5,6 +5,7 @@ import os, sys
 sys.path.insert(0, os.path.dirname(os.path.abspath(__file__)))
 import bodies2 as _b2
 from bodies2 import OPT_HINT
+from derived_common import newtype_items
 
 F_HS = "src/tls_handshake.rs"
 _types = [it for it in _b2.UNIT["items"] if it["kind"] in ("struct", "enum", "newtype_enum")]
@@ -124,6 +125,32 @@ pub open spec fn dch_post(i: Seq<u8>, r: IResult<&[u8], DTLSMessageHandshakeBody
 pub open spec fn cke_post(i: Seq<u8>, len: int, r: IResult<&[u8], TlsClientKeyExchangeContents>) -> bool {
     if i.len() < len { is_incomplete(r) }
     else { match r { Ok((rem, TlsClientKeyExchangeContents::Unknown(b))) => b@ =~= i.subrange(0, len) && rem@ =~= i.subrange(len, i.len() as int), _ => false } }
+}
+// DTLS wrappers of the shared body parsers and the two one-line DTLS message parsers
+pub open spec fn dtls_blob_post(i: Seq<u8>, len: int, r: IResult<&[u8], DTLSMessageHandshakeBody>, get: spec_fn(DTLSMessageHandshakeBody) -> Option<Seq<u8>>) -> bool {
+    if i.len() < len { is_incomplete(r) }
+    else { match r { Ok((rem, m)) => get(m) == Some(i.subrange(0, len)) && rem@ =~= i.subrange(len, i.len() as int), Err(_) => false } }
+}
+pub open spec fn dtls_sh_post(i: Seq<u8>, r: IResult<&[u8], DTLSMessageHandshakeBody>) -> bool {
+    if i.len() < 35 { is_incomplete(r) }
+    else if i[34] > 32 { is_error_kind(r, ErrorKind::Verify) }
+    else if i.len() < 35 + i[34] as int + 3 { is_incomplete(r) }
+    else { match r {
+        Ok((rem, DTLSMessageHandshakeBody::ServerHello(h))) => sh12_post(i, true, Ok::<(&[u8], TlsServerHelloContents), Err<Error<&[u8]>>>((rem, h))),
+        _ => false } }
+}
+pub open spec fn dtls_ccs_post(i: Seq<u8>, r: IResult<&[u8], DTLSMessage>) -> bool {
+    if i.len() < 1 { is_incomplete(r) }
+    else if i[0] != 1 { is_error_kind(r, ErrorKind::Verify) }
+    else { match r { Ok((rem, DTLSMessage::ChangeCipherSpec)) => rem@ =~= i.subrange(1, i.len() as int), _ => false } }
+}
+pub open spec fn alert_struct_post(i: Seq<u8>, r: IResult<&[u8], TlsMessageAlert>) -> bool {
+    if i.len() < 2 { is_incomplete(r) }
+    else { match r { Ok((rem, a)) => a.severity.0 == i[0] && a.code.0 == i[1] && rem@ =~= i.subrange(2, i.len() as int), Err(_) => false } }
+}
+pub open spec fn dtls_alert_post(i: Seq<u8>, r: IResult<&[u8], DTLSMessage>) -> bool {
+    if i.len() < 2 { is_incomplete(r) }
+    else { match r { Ok((rem, DTLSMessage::Alert(a))) => a.severity.0 == i[0] && a.code.0 == i[1] && rem@ =~= i.subrange(2, i.len() as int), _ => false } }
 }
 // a body that is one opaque blob of the declared length (ServerKeyExchange, ServerDone, CertificateVerify, Finished,
 // ClientKeyExchange): exactly `len` bytes, the rest is remainder, a short body is Incomplete
@@ -256,6 +283,27 @@ UNIT = {
              (r"TlsMessageHandshake::ClientKeyExchange,", "|x: TlsClientKeyExchangeContents<'a>| -> (y: TlsMessageHandshake<'a>) ensures y == TlsMessageHandshake::ClientKeyExchange(x) { TlsMessageHandshake::ClientKeyExchange(x) },"),
          ],
          "contract": "    ensures blob_post(i@, len as int, r, |m: TlsMessageHandshake| match m { TlsMessageHandshake::ClientKeyExchange(TlsClientKeyExchangeContents::Unknown(b)) => Some(b@), _ => None }),"},
+        {"file": "src/dtls.rs", "kind": "fn", "name": "parse_dtls_handshake_msg_server_hello_tlsv12",
+         "subst": [(r"^fn parse_dtls_handshake_msg_server_hello_tlsv12\(\s*i: &\[u8\],\s*\) -> IResult<&\[u8\], DTLSMessageHandshakeBody>", "pub fn parse_dtls_handshake_msg_server_hello_tlsv12<'a>(i: &'a [u8]) -> IResult<&'a [u8], DTLSMessageHandshakeBody<'a>>"),
+                   (r"DTLSMessageHandshakeBody::ServerHello,", "|x: TlsServerHelloContents<'a>| -> (y: DTLSMessageHandshakeBody<'a>) ensures y == DTLSMessageHandshakeBody::ServerHello(x) { DTLSMessageHandshakeBody::ServerHello(x) },")],
+         "contract": "    ensures dtls_sh_post(i@, r),"},
+        {"file": "src/dtls.rs", "kind": "fn", "name": "parse_dtls_handshake_msg_serverdone",
+         "subst": [(r"^fn parse_dtls_handshake_msg_serverdone\(\s*i: &\[u8\],\s*len: usize,\s*\) -> IResult<&\[u8\], DTLSMessageHandshakeBody>", "pub fn parse_dtls_handshake_msg_serverdone<'a>(i: &'a [u8], len: usize) -> IResult<&'a [u8], DTLSMessageHandshakeBody<'a>>"),
+                   (r"DTLSMessageHandshakeBody::ServerDone\)\(i\)", "|x: &'a [u8]| -> (y: DTLSMessageHandshakeBody<'a>) ensures y == DTLSMessageHandshakeBody::ServerDone(x) { DTLSMessageHandshakeBody::ServerDone(x) })(i)")],
+         "contract": "    ensures dtls_blob_post(i@, len as int, r, |m: DTLSMessageHandshakeBody| match m { DTLSMessageHandshakeBody::ServerDone(b) => Some(b@), _ => None }),"},
+        {"file": "src/dtls.rs", "kind": "fn", "name": "parse_dtls_handshake_msg_clientkeyexchange",
+         "subst": [(r"^fn parse_dtls_handshake_msg_clientkeyexchange\(\s*i: &\[u8\],\s*len: usize,\s*\) -> IResult<&\[u8\], DTLSMessageHandshakeBody>", "pub fn parse_dtls_handshake_msg_clientkeyexchange<'a>(i: &'a [u8], len: usize) -> IResult<&'a [u8], DTLSMessageHandshakeBody<'a>>"),
+                   (r"DTLSMessageHandshakeBody::ClientKeyExchange,", "|x: TlsClientKeyExchangeContents<'a>| -> (y: DTLSMessageHandshakeBody<'a>) ensures y == DTLSMessageHandshakeBody::ClientKeyExchange(x) { DTLSMessageHandshakeBody::ClientKeyExchange(x) },")],
+         "contract": "    ensures dtls_blob_post(i@, len as int, r, |m: DTLSMessageHandshakeBody| match m { DTLSMessageHandshakeBody::ClientKeyExchange(TlsClientKeyExchangeContents::Unknown(b)) => Some(b@), _ => None }),"},
+        {"file": "src/dtls.rs", "kind": "fn", "name": "parse_dtls_message_changecipherspec", "contract": "    ensures dtls_ccs_post(i@, r),",
+         "subst": [(r"verify\(be_u8, \|&tag\| tag == 0x01\)", "verify(be_u8, |tag: &u8| -> (b: bool) ensures b == (*tag == 0x01) { *tag == 0x01 })")],
+         "splices": [{"at_start": True, "text": "    proof { reveal_with_fuel(be_val, 2); }"}]},
+    ] + newtype_items("TlsAlertSeverity", 1) + newtype_items("TlsAlertDescription", 1) + [
+        {"file": "@expanded", "kind": "derived", "name": "TlsMessageAlert", "with_parse": True, "contract": "ensures alert_struct_post(orig_i@, r),",
+         "splices": [{"at_start": True, "text": "    let ghost i0 = orig_i@;\n    proof { reveal_with_fuel(be_val, 2); }"},
+                     {"after": r"let \(i, severity\) = [^;]*;", "text": "    proof { assert(severity.0 == i0[0]); assert(i@ =~= i0.subrange(1, i0.len() as int)); }"},
+                     {"after": r"let \(i, code\) = [^;]*;", "text": "    proof { assert(code.0 == i0[1]); assert(i@ =~= i0.subrange(2, i0.len() as int)); }"}]},
+        {"file": "src/dtls.rs", "kind": "fn", "name": "parse_dtls_message_alert", "contract": "    ensures dtls_alert_post(i@, r),"},
         {"file": F_HS, "kind": "fn", "name": "parse_tls_handshake_msg_key_update",
          "subst": [
              (r"fn parse_tls_handshake_msg_key_update\(i: &\[u8\]\) -> IResult<&\[u8\], TlsMessageHandshake>", "fn parse_tls_handshake_msg_key_update<'a>(i: &'a [u8]) -> IResult<&'a [u8], TlsMessageHandshake<'a>>"),
